@@ -35,6 +35,8 @@ type c09Case struct {
 	// written again: the same path is named twice (-p a -p b -p a, or twice
 	// in the -P list). The chain runs its changes a second time.
 	Repeat bool `json:"repeat,omitempty"`
+	// ListNoLF: the -P list file does not end in a line feed.
+	ListNoLF bool `json:"list_no_lf,omitempty"`
 
 	formatted bool // the file was put through gofmt for a second look
 }
@@ -115,14 +117,22 @@ func c09Combined(cs *c09Case) (out []byte, exit int, stderr string, harnessErr s
 		stdin, _ = os.ReadFile(files[0])
 	case "list":
 		lp := filepath.Join(dir, "patches.txt")
-		_ = os.WriteFile(lp, []byte(strings.Join(files, "\n")+"\n"), 0o644)
+		end := "\n"
+		if cs.ListNoLF {
+			end = ""
+		}
+		_ = os.WriteFile(lp, []byte(strings.Join(files, "\n")+end), 0o644)
 		args = append(args, "-P", lp)
 	case "p-then-list":
 		// -p flags are loaded before the -P list: first file via -p, the rest via -P
 		args = append(args, "-p", files[0])
 		if len(files) > 1 {
 			lp := filepath.Join(dir, "patches.txt")
-			_ = os.WriteFile(lp, []byte(strings.Join(files[1:], "\n\n")+"\n"), 0o644)
+			end := "\n"
+			if cs.ListNoLF {
+				end = ""
+			}
+			_ = os.WriteFile(lp, []byte(strings.Join(files[1:], "\n\n")+end), 0o644)
 			args = append(args, "-P", lp)
 		}
 	default:
@@ -867,6 +877,9 @@ func TestC09(t *testing.T) {
 		} else {
 			cs.Channel = rapid.SampledFrom([]string{"multi-p", "multi-p", "list", "p-then-list"}).Draw(rt, "channelN")
 		}
+		if cs.Channel == "list" || cs.Channel == "p-then-list" {
+			cs.ListNoLF = rapid.IntRange(0, 2).Draw(rt, "listNoFinalLF") == 0
+		}
 		sig, msg, info := evalC09(cs)
 		if info.Harness != "" {
 			c.Note("harness:" + strings.SplitN(info.Harness, " ", 2)[0])
@@ -874,7 +887,7 @@ func TestC09(t *testing.T) {
 		}
 		nontriv := (info.Applied >= 2 && info.Depends) || (info.Failed >= 0 && info.Applied >= 1)
 		c.Case(evid.Hash(strings.Join(cs.Changes, "\x00"), cs.File, cs.Channel, fmt.Sprint(cs.Split)), nontriv,
-			"family:"+cs.Family, "channel:"+cs.Channel, fmt.Sprintf("patch-file-named-twice:%v", cs.Repeat), fmt.Sprintf("changes:%d", n), fmt.Sprintf("patch-files:%d", len(cs.Split)),
+			"family:"+cs.Family, "channel:"+cs.Channel, fmt.Sprintf("patch-file-named-twice:%v", cs.Repeat), fmt.Sprintf("list-without-final-lf:%v", cs.ListNoLF), fmt.Sprintf("changes:%d", n), fmt.Sprintf("patch-files:%d", len(cs.Split)),
 			fmt.Sprintf("applied:%d", min(info.Applied, 4)), fmt.Sprintf("failing-step:%v", info.Failed >= 0), fmt.Sprintf("depends-on-predecessor:%v", info.Depends))
 		if nontriv && c.WantSample() {
 			c.Sample(map[string]any{"changes": cs.Changes, "split": cs.Split, "channel": cs.Channel, "file_bytes": len(cs.File), "applied": info.Applied, "failed_step": info.Failed})
